@@ -91,6 +91,11 @@ PROPS = {
         "mc": L0_QUICK + L0_THOROUGH,
         "drivers": [drv("rand", "debug"), drv("rand", "release", tiers=T)],
     },
+    "C04": {
+        "mc": L0_QUICK + L0_THOROUGH,
+        "drivers": [drv("history", "debug"), drv("history", "release", tiers=T)],
+        "owns_reasons": ("noncanon",),
+    },
     "C10": {
         "mc": L0_QUICK + L0_THOROUGH,
         "drivers": [drv("forms", "debug"), drv("forms", "release", tiers=T)],
@@ -126,7 +131,7 @@ own("C13", "gcd lcm gcd_lcm extended_gcd extended_gcd_lcm next_multiple_of prev_
 own("C17", "serialize deserialize serde_roundtrip")
 own("C18", "gen_biguint gen_bigint gen_biguint_below gen_range")
 own("C19", "from_biguint clone neg abs signum is_positive is_negative sign magnitude into_parts abs_sub is_zero is_one set_zero set_one const sign_neg sign_mul to_biguint to_bigint")
-own("C04", "clone")
+own("C04", "clone obs")
 
 # properties whose statement itself names a must-panic case (others leave missing panics to C14)
 FAILURE_STATED = {"C01", "C03", "C05", "C07", "C11", "C14", "C18"}
